@@ -12,6 +12,8 @@ ASSUMPTIONS = [
     'one API call is one step in LA.Model.Handles; sub-call interleavings matter only through shared statics, which the inventory enumerates',
     'the process time zone and locale do not change while handles are in use (dos_max_unix/dos_min_unix are mktime() of constants)',
     'libc serialises tzset/localtime_r/mktime internally; races inside external libraries are not attributed to libarchive',
+    'documented exceptions: umask during disk-writer header calls (directory modes are left out of the disk-writer digest) and the '
+    'working directory in the disk reader/writer (digests of two or more concurrent disk readers are not predicted; observed to differ)',
     'immutable-after-load is by review (the compiler placed the only such object in .rodata in this build); pages are not write-protected at run time',
 ]
 TRUSTED = [
@@ -102,6 +104,16 @@ class Thr(Engine):
             if len(wls) >= 2:
                 yield self.case(f'target:{file}:{sym}', wls[:10], att + 5)
 
+    @staticmethod
+    def filt(rng, fmt):
+        """lz4 closed with zero bytes written crashes single-threaded (XXH32_digest(NULL)): a C03 finding, not a
+        concurrency one.  Keep it out of the C13 workloads: no lz4 over formats that can emit nothing (raw with an
+        empty first entry, anything with zero entries)."""
+        flt = rng.choice(WRITE_FILTERS)
+        while flt == 'lz4' and fmt == 'raw':
+            flt = rng.choice(WRITE_FILTERS)
+        return flt
+
     def case(self, label, wls, attempts):
         return Case(label, ['wl ' + w for w in wls] + ['solo', 'seq', f'par {attempts}'], {'n': len(wls)})
 
@@ -130,7 +142,7 @@ class Thr(Engine):
         fmts = list(WRITE_FORMATS)
         rng.shuffle(fmts)
         for i in range(0, len(fmts), 6):
-            yield self.case(f'writers-{i}', [f'wr {f} {rng.choice(WRITE_FILTERS)} {rng.randrange(1000)} {rng.choice([1, 3, 7])}'
+            yield self.case(f'writers-{i}', [f'wr {f} {self.filt(rng, f)} {rng.randrange(1000)} {rng.choice([1, 3, 7])}'
                                              for f in fmts[i:i + 6]], att)
         n = 16 if quick else 400
         for i in range(n):
@@ -141,11 +153,10 @@ class Thr(Engine):
                 if r < 0.6:
                     wls.append('rd ' + rng.choice(R)[1])
                 elif r < 0.9:
-                    flt = rng.choice(WRITE_FILTERS)
-                    # lz4 closed with zero bytes written crashes single-threaded (XXH32_digest(NULL)): a C03 finding,
-                    # not a concurrency one; keep it out of the C13 workloads
+                    fmt = rng.choice(WRITE_FORMATS)
+                    flt = self.filt(rng, fmt)
                     cnt = rng.choice([1, 4, 9] if flt == 'lz4' else [0, 1, 4, 9])
-                    wls.append(f'wr {rng.choice(WRITE_FORMATS)} {flt} {rng.randrange(1000)} {cnt}')
+                    wls.append(f'wr {fmt} {flt} {rng.randrange(1000)} {cnt}')
                 elif r < 0.96:
                     wls.append(f'dw {rng.randrange(1000)} {rng.choice([1, 6])}')
                 else:
@@ -181,7 +192,10 @@ class Thr(Engine):
             for i in range(k):
                 if seq[i] != solo[i]:
                     return f'workload {i} ({wls[i][:60]}) gives a different result after other handles were used in the same process (handle coupling)'
+            many_dr = sum(1 for w in wls if w == 'dr') >= 2
             for i in range(k):
+                if wls[i] == 'dr' and many_dr:
+                    continue      # documented exception: concurrent disk readers share the working directory (fchdir)
                 if par[i] != seq[i]:
                     return f'workload {i} ({wls[i][:60]}) gives a different result when run concurrently ({par[i]}) than sequentially'
             if f.get('crashes', '0') != '0':
@@ -203,7 +217,8 @@ class Thr(Engine):
         return case.meta.get('n', 0) >= 2 and len(impl) >= 3 and impl[-1].startswith('d ') and 'MIXED' not in impl[-1]
 
     def stats(self, cases, impl):
-        st = {'workloads': {}, 'threads_per_case': {}, 'race_symbols_seen': {}, 'ext_reports': 0, 'write_formats': {}, 'write_filters': {}}
+        st = {'workloads': {}, 'threads_per_case': {}, 'race_symbols_seen': {}, 'ext_reports': 0, 'write_formats': {}, 'write_filters': {},
+              'documented_exception_observed(concurrent disk readers disagree with their sequential run)': 0}
         for c, im in zip(cases, impl):
             wls = [o.split() for o in c.ops if o.startswith('wl ')]
             st['threads_per_case'][len(wls)] = st['threads_per_case'].get(len(wls), 0) + 1
@@ -212,6 +227,10 @@ class Thr(Engine):
                 if w[1] == 'wr':
                     st['write_formats'][w[2]] = st['write_formats'].get(w[2], 0) + 1
                     st['write_filters'][w[3]] = st['write_filters'].get(w[3], 0) + 1
+            if im and len(im) >= 3 and sum(1 for w in wls if w[1] == 'dr') >= 2:
+                a, b = im[-2].split(), im[-1].split()
+                if any(w[1] == 'dr' and i + 1 < len(a) and i + 1 < len(b) and a[i + 1] != b[i + 1] for i, w in enumerate(wls)):
+                    st['documented_exception_observed(concurrent disk readers disagree with their sequential run)'] += 1
             if im:
                 m = re.search(r'races=(\S+)', im[-1])
                 if m and m.group(1) != '-':
